@@ -304,6 +304,9 @@ def candidates(case):
         c = copy.deepcopy(case)
         del c['faults'][i]
         yield c
+    for c in shrink.drop_cycle_variants(case):
+        c['interleave'] = _flat(c['labels'], len(c['cycles']))
+        yield c
     if case['sched'].get('iter_policy') or case['sched'].get('perm_seed') is not None:
         c = copy.deepcopy(case)
         c['sched'].update({'iter_policy': None, 'perm_seed': None, 'noise': 0})
